@@ -475,6 +475,27 @@ func registerModels(in *Interp) {
 	M["strings.Contains"] = func(in *Interp, st *State, cc *ssa.CallCommon, args []Value) []Alt {
 		return one(smt.Contains(termOf(args[0]), termOf(args[1])))
 	}
+	M["strings.ContainsAny"] = func(in *Interp, st *State, cc *ssa.CallCommon, args []Value) []Alt {
+		chars := termOf(args[1])
+		if !chars.IsConst() {
+			return []Alt{{Stop: Unsupported, Why: "strings.ContainsAny with a symbolic character set"}}
+		}
+		var ds []*smt.Term
+		for i := 0; i < len(chars.S); i++ {
+			if chars.S[i] >= 0x80 {
+				return []Alt{{Stop: Unsupported, Why: "strings.ContainsAny with a non-ASCII character set"}}
+			}
+			ds = append(ds, smt.Contains(termOf(args[0]), smt.StrC(chars.S[i:i+1])))
+		}
+		return one(smt.Or(ds...))
+	}
+	M["strings.ContainsRune"] = func(in *Interp, st *State, cc *ssa.CallCommon, args []Value) []Alt {
+		r := termOf(args[1])
+		if !r.IsConst() || r.I >= 0x80 {
+			return []Alt{{Stop: Unsupported, Why: "strings.ContainsRune with a symbolic or non-ASCII rune"}}
+		}
+		return one(smt.Contains(termOf(args[0]), smt.StrC(string(rune(r.I)))))
+	}
 	M["strings.HasPrefix"] = func(in *Interp, st *State, cc *ssa.CallCommon, args []Value) []Alt {
 		return one(smt.PrefixOf(termOf(args[1]), termOf(args[0])))
 	}
@@ -530,6 +551,41 @@ func registerModels(in *Interp) {
 				st.assume(smt.Eq(x, smt.Concat(t, r)))
 				st.assume(smt.InRe(r, smt.ReStar(cutRe)))
 				st.assume(smt.InRe(t, smt.ReUnion(smt.ReLit(""), smt.ReConcat(smt.SigmaStar, nonCut))))
+				return t
+			})
+		})}
+	}
+	M["strings.TrimLeft"] = func(in *Interp, st *State, cc *ssa.CallCommon, args []Value) []Alt {
+		x, cut := termOf(args[0]), termOf(args[1])
+		if !cut.IsConst() {
+			return []Alt{{Stop: Unsupported, Why: "strings.TrimLeft with a symbolic cutset"}}
+		}
+		if x.IsConst() {
+			return one(smt.StrC(strings.TrimLeft(x.S, cut.S)))
+		}
+		var cs, ncs []*smt.Term
+		for c := 0; c < 128; c++ {
+			if strings.IndexByte(cut.S, byte(c)) >= 0 {
+				cs = append(cs, smt.ReLit(string([]byte{byte(c)})))
+			}
+		}
+		prev := 0
+		for c := 0; c <= 128; c++ {
+			if c == 128 || strings.IndexByte(cut.S, byte(c)) >= 0 {
+				if c > prev {
+					ncs = append(ncs, smt.ReRange(byte(prev), byte(c-1)))
+				}
+				prev = c + 1
+			}
+		}
+		cutRe, nonCut := smt.ReUnion(cs...), smt.ReUnion(ncs...)
+		return []Alt{effRet(func(st *State) Value {
+			return memo(st, fmt.Sprintf("trimleft:%d:%s", x.ID(), cut.S), func() Value {
+				l := st.fresh("tl.l", smt.String)
+				t := st.fresh("tl.t", smt.String)
+				st.assume(smt.Eq(x, smt.Concat(l, t)))
+				st.assume(smt.InRe(l, smt.ReStar(cutRe)))
+				st.assume(smt.InRe(t, smt.ReUnion(smt.ReLit(""), smt.ReConcat(nonCut, smt.SigmaStar))))
 				return t
 			})
 		})}
